@@ -339,7 +339,7 @@ func c16Body(c *Check) {
 }
 
 func runC16(c *Check) {
-	c.Rule = "byte words<=3 over 38-40 byte classes x 7 loaders; C13 token words<=2 under jsx/ts/tsx with minify/target/sourcemap; every string literal of the repository's parser/printer/bundler tests under all loaders plus single-token deletions/duplications/swaps; nesting words w^n; source-map payload grammar; package.json/tsconfig.json key x value-kind matrix through real bundles; oracle: call returns, no panic / internal error text, process survives (workers are subprocesses with a journal), canary build afterwards; distinct = distinct (loader, output) pairs"
+	c.Rule = "byte words<=3 over 38-40 byte classes x 7 loaders; C13 token words<=2 under jsx/ts/tsx with minify/target/sourcemap; every string literal of the repository's parser/printer/bundler tests under all loaders plus single-token deletions/duplications/swaps; nesting words w^n; source-map payload grammar; package.json/tsconfig.json key x value-kind matrix through real bundles; oracle: call returns, no panic / internal error text, process survives (workers are subprocesses with a journal), canary build afterwards; distinct = distinct (loader, output) pairs; balanced nestings with an output-size oracle; pattern words for every pattern-valued setting of package.json/tsconfig.json; TypeScript backtracking words; CSS nesting expansion (m parents x k ampersands) under lowering"
 	c.Assump = []string{"inputs above tens of kilobytes and nesting above 20000 (2000 for accepted nestings, whose pretty-printed output is quadratic) are not explored", "hang = no answer for 120 s"}
 	if c.shardN > 1 {
 		c16Journal = argVal("--journal", "")
